@@ -483,10 +483,12 @@ def resolve_callable(qual, selfobj=None):
     return getattr(mod, name), False
 
 
-def run_witness(qual, wit, R=None, stubs=None):
+def run_witness(qual, wit, R=None, stubs=None, tag=None):
     """-> dict(verdict=reproduced|passed|skipped, ...) ; runs the REAL function"""
     R = R or REG
-    c = R.contracts[qual]
+    c = R.contracts.get(qual + "#" + tag) if tag else None
+    if c is None:
+        c = R.contracts[qual]
     stubs = dict(getattr(R, "native_stubs", {}) if stubs is None else stubs)
     out = {"function": qual}
     b = Builder(wit, stubs)
